@@ -117,6 +117,7 @@ type VC struct {
 	nq        int
 	pendingTargs map[*types.TypeParam]types.Type
 	constSort map[string]string
+	abandonPath bool
 }
 
 // frame: one (possibly inlined) function activation
